@@ -28,3 +28,31 @@ Definition mk_tok (x : bool * str) : tok := if fst x then EOS else Piece (snd x)
 Definition chk_run (stops : list str) (limit : nat) (ts : list (bool * str)) (outs : list str) (rc : N) : bool :=
   let s := settle limit (run stops limit (map mk_tok ts)) in
   eqb_strs (out s) outs && N.eqb (reason_code (fin s)) rc.
+
+(** the per-batch trace of one sequence: the state after every processBatch call in which the sequence sampled a
+    token or was removed; generation stops at the first finished state; after the last scripted token one more
+    batch boundary ([settle]) is observed only when it removes the sequence *)
+Fixpoint trace (stops : list str) (limit : nat) (s : st) (ts : list tok) : list st :=
+  match fin s with
+  | Some _ => []
+  | None =>
+      match ts with
+      | [] => let s' := settle limit s in match fin s' with Some _ => [s'] | None => [] end
+      | t :: ts' => let s' := step stops limit s t in s' :: trace stops limit s' ts'
+      end
+  end.
+
+(** one observed event: strings sent on the channel during the call, pendingResponses, numPredicted and whether the
+    channel was closed afterwards *)
+Definition ev := (list str * list str * nat * bool)%type.
+Fixpoint chk_events (acc : list str) (ss : list st) (es : list ev) : bool :=
+  match ss, es with
+  | [], [] => true
+  | s :: ss', (emit, pend, np, dn) :: es' =>
+      let acc' := acc ++ emit in
+      eqb_strs (out s) acc' && eqb_strs (pending s) pend && Nat.eqb (npred s) np &&
+      Bool.eqb (match fin s with Some _ => true | None => false end) dn && chk_events acc' ss' es'
+  | _, _ => false
+  end.
+Definition chk_trace (stops : list str) (limit : nat) (ts : list (bool * str)) (es : list ev) : bool :=
+  chk_events [] (trace stops limit init (map mk_tok ts)) es.
